@@ -386,7 +386,7 @@ def twin_job(prop, mode, shape, r=2, cap=(12, 24), **kw):
         j.defines["N"] = int(j.defines["N"]) + 2 * r
         j.unwind = max(j.unwind, int(j.defines["N"]) + 2)
     j.unwind = max(j.unwind, 66)     # the comparison loops run over the output log (<= 64 bytes)
-    j.solver = "kissat"
+    j.solver = "cadical"             # in-process and incremental: witness goals ride in the same run (measured 150 s vs 345 s with the external solver + twin)
     j.timeout = 2400
     j.samples = 600000               # cheap native runs: fewer hint refinements (each one is a full CBMC run)
     return j
